@@ -58,19 +58,17 @@ Proof.
   vm_compute. repeat split; reflexivity.
 Qed.
 
-(* ---- K1 has a cascade=True and a cascade=False column to K0; K0#1 is
-   referenced only through the cascading one: the specification deletes
-   both rows, the code refuses *)
-Lemma per_class_refuted :
-  exists g st p, wf_graph g = true /\ wf_state st = true /\ acyclicb g st p = true /\
-    restricted g st (closure g st p) = false /\ mixed_trigger g st p = true /\
-    destroy true 10 g st p = Raised st.
-Proof.
-  exists [cl 0 [] []; cl 1 [fk 0 Cascade; fk 0 Restrict] []],
-         (mkst [(0%N, [rw 1 []; rw 2 []]); (1%N, [rw 1 [Some 1; None]; rw 2 [None; Some 2]])] [] []),
-         (0%N, 1).
-  vm_compute. repeat split; reflexivity.
-Qed.
+(* ---- (repaired, 6f7f267) K1 has a cascade=True and a cascade=False column
+   to K0; K0#1 is referenced only through the cascading one: the restrict test
+   now looks at the cascade=False column only, and both rows are deleted as
+   the specification says *)
+Lemma per_class_now_fine :
+  let g := [cl 0 [] []; cl 1 [fk 0 Cascade; fk 0 Restrict] []] in
+  let st := mkst [(0%N, [rw 1 []; rw 2 []]); (1%N, [rw 1 [Some 1; None]; rw 2 [None; Some 2]])] [] [] in
+  guard_ok g st (0%N, 1) = true /\ restricted g st (closure g st (0%N, 1)) = false /\
+  destroy true 10 g st (0%N, 1) = destroy_spec true g st (0%N, 1) /\
+  destroy true 10 g st (0%N, 1) = Done (mkst [(0%N, [rw 2 []]); (1%N, [rw 2 [None; Some 2]])] [] []).
+Proof. vm_compute. auto. Qed.
 
 (* ---- a row that references itself through cascade=True: no fuel suffices *)
 Definition g_self : graph := [cl 0 [fk 0 Cascade] []].
@@ -121,17 +119,14 @@ Proof.
   repeat split; try (vm_compute; reflexivity); eexists; repeat split; vm_compute; reflexivity.
 Qed.
 
-(* ---- cache=False: the destroyed instance is still handed out *)
-Lemma stale_uncached_refuted :
-  exists g st p st', wf_graph g = true /\ wf_state st = true /\ guard_ok g st p = true /\
-    destroy false 10 g st p = Done st' /\ row_exists st' p = false /\ get_found st' p = true.
-Proof.
-  exists [cl 0 [] []; cl 1 [fk 0 Cascade] []],
-         (mkst [(0%N, [rw 1 []]); (1%N, [rw 1 [Some 1]])] [] [(0%N, 1); (1%N, 1)]),
-         (0%N, 1),
-         (mkst [(0%N, []); (1%N, [])] [] [(0%N, 1); (1%N, 1)]).
-  vm_compute. repeat split; reflexivity.
-Qed.
+(* ---- (repaired, e3b93b4) cache=False: destroySelf purges the weak entry as
+   well; the held instances of the destroyed rows are not handed out again *)
+Lemma uncached_now_gone :
+  let g := [cl 0 [] []; cl 1 [fk 0 Cascade] []] in
+  let st := mkst [(0%N, [rw 1 []]); (1%N, [rw 1 [Some 1]])] [] [(0%N, 1); (1%N, 1)] in
+  exists st', destroy false 10 g st (0%N, 1) = Done st' /\
+    get_found st' (0%N, 1) = false /\ get_found st' (1%N, 1) = false.
+Proof. eexists. vm_compute. auto. Qed.
 
 (* ---- non-vacuity: a depth-2 cascade with null-outs, a dangling
    cascade=None reference and link rows on both sides, inside the guard *)
